@@ -178,6 +178,8 @@ class World:
             return SBool(Function(f'lib_attr_{attr}', Val, IntSort(), BoolSort())(eng.to_val(p, h), IntVal(n)))
         if k in ('opaque', 'disposable'):
             return Bound(h, attr)
+        if k == 'immediate_scheduler' and attr == 'schedule':
+            return Bound(h, attr)
         raise Unsupported(f'attribute {attr} of host {h.kind}')
 
     def emit(self, eng, p, chan, ev):
@@ -241,6 +243,14 @@ class World:
                     return [(p, Host('disposable'))]
             if k == 'disposable':
                 return [(p, None)]
+            if k == 'immediate_scheduler' and name == 'schedule':
+                # only contracts of *sources* (io.file.read) pass this scheduler: the action runs when scheduled (CurrentThreadScheduler at
+                # top level; trampolining of nested subscriptions is not modelled)
+                trusted('scheduler.schedule(action): the action is run once, synchronously, with (scheduler, state)')
+                out = []
+                for q, _ in eng.call(p, args[0], [o, args[1] if len(args) > 1 else None], {}):
+                    out.append((q, Host('disposable')))
+                return out
             if k == 'store':
                 from . import storemodel
                 return storemodel.store_call(eng, p, o, name, args, kws)
